@@ -22,6 +22,10 @@ def cases(draw):
         # free-text layer names of which one, read as a regular expression, matches another one
         for L, nm in zip(spec['layers'], draw(st.permutations(CONFUSABLE))):
             L['name'] = nm
+    for m in spec['modules']:
+        for node in _case_nodes(m['tree']):
+            if draw(st.integers(0, 7)) == 0:
+                node['falsy'] = True        # test objects that are false in a boolean context
     lnames = [L['name'] for L in spec['layers']]
     mnames = [m['name'] for m in spec['modules']]
     tnames = sorted({t['n'] for _, t in gen.iter_tests(spec)})
@@ -71,6 +75,13 @@ def cases(draw):
     mode = draw(st.sampled_from(['j2', 'j3', 'j1-resume', 'resume']))
     return {'spec': spec, 'opts': opts, 'mode': mode, 'verbose': draw(st.integers(0, 2)),
             'relpath': draw(st.sampled_from([False, False, True]))}
+
+
+def _case_nodes(node):
+    if node['t'] == 'c':
+        yield node
+    for ch in node.get('ch') or ():
+        yield from _case_nodes(ch)
 
 
 CONFUSABLE = ['L.A', 'LXA', 'L+', 'L', 'LL', 'L(1)', 'L1', 'L[A]', 'LA', 'L|A', 'L.*', 'L?A']
